@@ -5,7 +5,7 @@ from .progfam import *
 def run(tier, seed):
     return run_prog_property(
         "C14", ["debug", "compile", "deep", "fold", "forwhile"], tier, seed, trace_fams=("debug",),
-        expand=lambda cs: layout_variants(cs, ("debug",), [" ", "tight", "\n", "\t "]),
+        expand=lambda cs: layout_variants(cs, ("debug",), [" ", "tight", "\n", "\t ", "\n\n"]),
         rule="(1) Behaviour neutrality: every program of the families is compiled with and without debug symbols and run on every "
              "witness assignment; both builds must give the verdict of the source semantics (model invariant DebugNeutral). "
              "(2) Markers: MC_Debug.tla places 16 tracked calls (dbg! of variable / literal / tuple / call / block / nested dbg!, "
